@@ -332,15 +332,62 @@ type reqRec struct {
 }
 
 type faultPlan struct {
-	Kind string `json:"kind"` // get lock set unlock ("" = none)
+	Kind string `json:"kind"` // get lock set unlock unlockerr getdata ("" = none)
 	N    int    `json:"n"`
+	// getdata: the Get calls number N .. N+Span-1 succeed but, when a record is stored under the
+	// key, return it damaged in the way Data says (a miss stays a miss).
+	Data string `json:"data,omitempty"`
+	Span int    `json:"span,omitempty"`
 }
 
 func (p faultPlan) String() string {
 	if p.Kind == "" {
 		return "none"
 	}
-	return p.Kind + "#" + strconv.Itoa(p.N)
+	s := p.Kind + "#" + strconv.Itoa(p.N)
+	if p.Kind == "getdata" {
+		s += "/" + p.Data
+		if p.Span > 1 {
+			s += "x" + strconv.Itoa(p.Span)
+		}
+	}
+	return s
+}
+
+// dataModes: how a stored record is damaged. Every mode but "garbage" yields bytes that are not
+// a complete record (any proper prefix of the encoding lacks part of its last field; 0xc1 is the
+// one byte MessagePack never uses); trailing garbage leaves a record that still decodes to the
+// same response, i.e. no fault at all for the reader. Damage that decodes to a DIFFERENT valid
+// response (a flipped body byte, another key's record) is indistinguishable from a genuine
+// record without a checksum and is not injected.
+var dataModes = []string{"trunc-half", "badfirst", "trunc-1", "trunc-last", "trunc-head", "garbage"}
+
+func damage(mode string, rec []byte) []byte {
+	cut := func(n int) []byte {
+		if n < 1 {
+			n = 1
+		}
+		if n >= len(rec) {
+			n = len(rec) - 1
+		}
+		return append([]byte(nil), rec[:n]...)
+	}
+	switch mode {
+	case "trunc-1":
+		return cut(1)
+	case "trunc-head":
+		return cut(5)
+	case "trunc-half":
+		return cut(len(rec) / 2)
+	case "trunc-last":
+		return cut(len(rec) - 1)
+	case "badfirst":
+		out := append([]byte(nil), rec...)
+		out[0] = 0xc1
+		return out
+	default: // garbage
+		return append(append([]byte(nil), rec...), 0xc1, 0xff, 0x00, 'x')
+	}
 }
 
 type run struct {
@@ -359,6 +406,7 @@ type run struct {
 	flags    []finding   // monitor findings raised while running (lock probe)
 	out      *sched.Outcome
 	fired    bool // the planned fault hit a call
+	damaged  int  // Get calls that returned a damaged record
 }
 
 func (r *run) curReq() int {
@@ -404,6 +452,21 @@ func (r *run) boundary(kind, point string) {
 			rq.Faulted = "get" + strconv.Itoa(rq.gets)
 		default:
 			rq.Faulted = kind
+		}
+	}
+	if kind == "get" && r.plan.Kind == "getdata" && r.vs != nil {
+		span := r.plan.Span
+		if span < 1 {
+			span = 1
+		}
+		if n >= r.plan.N && n < r.plan.N+span {
+			// the middleware stores under the key string itself; damage what is there right now
+			if rec, ok := r.vs.Peek(rq.Key); ok && len(rec) > 1 {
+				r.vs.Faults = []vstore.Fault{{Kind: "get", N: n, Corrupt: damage(r.plan.Data, rec)}}
+				r.fired = true
+				rq.Faulted = "getdata" + strconv.Itoa(rq.gets)
+				r.damaged++
+			}
 		}
 	}
 }
